@@ -1,6 +1,6 @@
 INIT GInit
 NEXT GNext
 CONSTANTS
-  Len2 = 5
+  Len2 = 4
 INVARIANTS Facts Emit
 CHECK_DEADLOCK FALSE
